@@ -16,7 +16,8 @@ Section AbsBins.
   Definition kill (h : nat) (st : pstate) : pstate := update h (fun _ => None) st.
 
   (** pre-condition of an operation: handles live, indices and sizes in range, same
-      manager on both sides of a binary operation, distinct arrays *)
+      manager on both sides of a binary operation; concatenate takes two distinct arrays
+      (both die), combine may pair an array with itself (bins[i] += bins[j], also i = j) *)
   Definition disciplined (st : pstate) (o : op (A := A)) : Prop :=
     match o with
     | OpNew _ _ => True
@@ -25,7 +26,7 @@ Section AbsBins.
     | OpAddEmpty h _ => exists e, plive st h = Some e
     | OpRemove h n => exists k b, plive st h = Some (k, b) /\ (n <= length b)%nat
     | OpConcat h1 h2 => h1 <> h2 /\ exists k b1 b2, plive st h1 = Some (k, b1) /\ plive st h2 = Some (k, b2)
-    | OpCombine h1 i1 h2 i2 => h1 <> h2 /\ exists k b1 b2, plive st h1 = Some (k, b1) /\ plive st h2 = Some (k, b2)
+    | OpCombine h1 i1 h2 i2 => exists k b1 b2, plive st h1 = Some (k, b1) /\ plive st h2 = Some (k, b2)
                                                            /\ (i1 < length b1)%nat /\ (i2 < length b2)%nat
     end.
 
@@ -40,8 +41,7 @@ Section AbsBins.
                         | Some (k1, _), Some (k2, _) => Bool.eqb k1 k2
                         | _, _ => false
                         end
-    | OpCombine h1 i1 h2 i2 => negb (Nat.eqb h1 h2) &&
-                               match plive st h1, plive st h2 with
+    | OpCombine h1 i1 h2 i2 => match plive st h1, plive st h2 with
                                | Some (k1, b1), Some (k2, b2) => Bool.eqb k1 k2 && Nat.ltb i1 (length b1) && Nat.ltb i2 (length b2)
                                | _, _ => false
                                end
@@ -76,6 +76,13 @@ Section AbsBins.
                                | Some (k, b1), Some (_, b2) => update h1 (fun _ => Some (k, combine_bins b1 i1 b2 i2)) st
                                | _, _ => st
                                end
+    end.
+
+  (** the boolean test of a whole sequence, as the harness evaluates it step by step *)
+  Fixpoint disciplined_run_b (st : pstate) (ops : list (op (A := A))) : bool :=
+    match ops with
+    | [] => true
+    | o :: t => disciplined_b st o && disciplined_run_b (pure_step st o) t
     end.
 
   (** a sequence of operations each of which respects the discipline in the state it meets *)
